@@ -16,6 +16,7 @@ package model
 
 import (
 	"github.com/logrange/logrange/pkg/model/field"
+	"github.com/logrange/logrange/pkg/utils"
 	"github.com/logrange/range/pkg/records"
 	"github.com/logrange/range/pkg/utils/encoding/xbinary"
 )
@@ -124,11 +125,11 @@ func (le *LogEvent) Unmarshal(buf []byte, newBuf bool) (int, error) {
 	}
 
 	le.Timestamp = int64(ts)
-	n, le.Msg, err = xbinary.UnmarshalBytes(buf[nn:], newBuf)
+	n, le.Msg, err = utils.UnmarshalBytes(buf[nn:], newBuf)
 	nn += n
 	if hdr&1 != 0 && err == nil {
 		var flds string
-		n, flds, err = xbinary.UnmarshalString(buf[nn:], newBuf)
+		n, flds, err = utils.UnmarshalString(buf[nn:], newBuf)
 		nn += n
 		if err == nil {
 			le.Fields = field.Fields(flds)
